@@ -80,11 +80,36 @@ Why(t, e) ==
         ELSE LET w == AtWhy(b, e.t, e.r.v[1]) IN IF w = "ok" THEN "ok" ELSE "at:" \o w
     ELSE "unknown-event"
 
+\* multichannel traces (c = "mc"): lv, tm, cv hold one sequence of channel values per entry; observations carry
+\* one array (r.vv[c]) or one value per channel
+MCEnv(t) == MkEnv(t.lv, t.tm, t.cv, t.rel, t.loop, t.off)
+RECURSIVE FirstBad(_, _, _, _)
+FirstBad(m, vv, c, pre) ==
+    IF c > NChan(m) THEN "ok"
+    ELSE IF Len(vv[c]) < Len(pre) \/ SubSeq(vv[c], 1, Len(pre)) # pre THEN "mc:controls"
+    ELSE LET d == DiffName(FormatSeq(Chan(m, c)), SubSeq(vv[c], Len(pre) + 1, Len(vv[c])), FALSE) IN
+         IF d # "ok" THEN "mc:" \o d ELSE FirstBad(m, vv, c + 1, pre)
+RECURSIVE FirstBadAt(_, _, _, _)
+FirstBadAt(m, t, vv, c) ==
+    IF c > NChan(m) THEN "ok"
+    ELSE LET w == AtWhy(Chan(m, c), t, vv[c][1]) IN IF w # "ok" THEN "mc:at:" \o w ELSE FirstBadAt(m, t, vv, c + 1)
+WhyMC(t, e) ==
+    LET m == MCEnv(t) IN
+    IF ~ValidMC(m) THEN (IF e.r.k = "exc" THEN "ok" ELSE "mc:accepted-invalid")
+    ELSE IF e.r.k # "ok" THEN "mc:" \o e.n \o ":raised"
+    ELSE IF Len(e.r.vv) # NChan(m) THEN "mc:" \o e.n \o ":channels"
+    ELSE IF e.n = "fmt" THEN FirstBad(m, e.r.vv, 1, <<>>)
+    ELSE IF e.n = "ugen" THEN FirstBad(m, e.r.vv, 1, [i \in 1..5 |-> Fix(e.ctl[i])])
+    ELSE IF e.n = "at" THEN (IF \E c \in 1..NChan(m) : ~LatticeEnv(Chan(m, c)) THEN "mc:at:off-lattice-query"
+                             ELSE IF \E c \in 1..NChan(m) : Len(e.r.vv[c]) # 1 THEN "mc:at:shape"
+                             ELSE FirstBadAt(m, e.t, e.r.vv, 1))
+    ELSE "unknown-event"
+
 TInit == /\ tid \in 1..Len(Traces) /\ l = 1
          /\ env = <<>> /\ op = "" /\ tq = 0 /\ fmt = <<>> /\ val = <<>> /\ part = <<>>
 Step1 == /\ l >= 1 /\ l <= Len(Traces[tid].ev)
          /\ LET t == Traces[tid]
-                why == Why(t, t.ev[l]) IN
+                why == IF t.c = "mc" THEN WhyMC(t, t.ev[l]) ELSE Why(t, t.ev[l]) IN
             IF why = "ok" THEN l' = l + 1 /\ UNCHANGED <<env, op, tq, fmt, val, part, tid>>
             ELSE /\ PrintT(<<"REJ", t.id, l, why>>)
                  /\ l' = 0 /\ UNCHANGED <<env, op, tq, fmt, val, part, tid>>
